@@ -37,6 +37,44 @@ var errExceptions = map[string]string{
 	"ProcessDeposit->Signature": "spec: deposit with an undecodable signature fails the proof-of-possession check and is skipped",
 }
 
+// decodesOwnBytes: the reader handed to this Deserialize call was built in the same function as
+// codec.NewDecodingReader(bytes.NewReader(x), scope) with scope = len(x) (or the constant length of the array x slices).
+func decodesOwnBytes(info *types.Info, fd *ast.FuncDecl, call *ast.CallExpr) bool {
+	if len(call.Args) != 1 || fd.Body == nil {
+		return false
+	}
+	defs := singleDefs(info, fd.Body)
+	dr, ok := ast.Unparen(resolveLocal(info, call.Args[0], defs, 3)).(*ast.CallExpr)
+	if !ok || len(dr.Args) != 2 {
+		return false
+	}
+	if f := calleeFunc(info, dr); f == nil || f.Name() != "NewDecodingReader" || !isZtyp(f) {
+		return false
+	}
+	rd, ok := ast.Unparen(resolveLocal(info, dr.Args[0], defs, 3)).(*ast.CallExpr)
+	if !ok || len(rd.Args) != 1 {
+		return false
+	}
+	if f := calleeFunc(info, rd); f == nil || f.Name() != "NewReader" || f.Pkg() == nil || f.Pkg().Path() != "bytes" {
+		return false
+	}
+	src := types.ExprString(ast.Unparen(rd.Args[0]))
+	scope := ast.Unparen(stripConv(info, resolveLocal(info, dr.Args[1], defs, 3)))
+	if lc, ok := scope.(*ast.CallExpr); ok && len(lc.Args) == 1 {
+		if id, ok := lc.Fun.(*ast.Ident); ok && id.Name == "len" && types.ExprString(ast.Unparen(lc.Args[0])) == src {
+			return true
+		}
+	}
+	if tv, ok := info.Types[dr.Args[1]]; ok && tv.Value != nil {
+		if sl, ok := ast.Unparen(rd.Args[0]).(*ast.SliceExpr); ok && sl.Low == nil && sl.High == nil {
+			if at, ok := derefT(info.TypeOf(sl.X)).Underlying().(*types.Array); ok && tv.Value.String() == fmt.Sprint(at.Len()) {
+				return true
+			}
+		}
+	}
+	return false
+}
+
 func errException(caller, callee string) (string, bool) {
 	short := caller
 	if i := strings.LastIndex(caller, "."); i >= 0 {
@@ -368,6 +406,8 @@ func (c *Ctx) checkErrVar(info *types.Info, fd *ast.FuncDecl, parents map[ast.No
 	if id.Name == "_" {
 		if r, ok := errException(fn, callee); ok {
 			report(OK, call, callee, "tabled exception: %s", r)
+		} else if callee == "Deserialize" && decodesOwnBytes(info, fd, call) {
+			report(OK, call, callee, "decodes a reader whose scope is the length of the very bytes it reads (built in this function): the value->view helpers' premise (codec.scope)")
 		} else {
 			report(Violation, call, callee, "the error result of %s is discarded (assigned to _)", callee)
 		}
@@ -394,6 +434,26 @@ func (c *Ctx) checkErrVar(info *types.Info, fd *ast.FuncDecl, parents map[ast.No
 		}
 	}
 	retErr := lastResultIsError(encl(as), info)
+	// carried: the error is looked at somewhere else than right after the call (a loop condition, the top of the next
+	// round, after the enclosing block). Whether it then gets out is decided on the control-flow graph: from the
+	// assignment on, with the error taken to be non-nil, every path ends in a return that hands it on.
+	carried := func(how string) {
+		var body *ast.BlockStmt = fd.Body
+		results := fd.Type.Results
+		for p := parents[ast.Node(as)]; p != nil; p = parents[p] {
+			if fl, ok := p.(*ast.FuncLit); ok {
+				body, results = fl.Body, fl.Type.Results
+				break
+			}
+		}
+		if retErr {
+			if ok, why := errReaches(info, body, results, as, eobj, nil); !ok {
+				report(Violation, call, callee, "the error from %s is carried on (%s) but does not reach the caller: %s", callee, how, why)
+				return
+			}
+		}
+		report(OK, call, callee, "%s", how)
+	}
 	// named error result: assignment to it followed by bare return is a return
 	// Case A: if-init / switch-init
 	if ifs, ok := parents[as].(*ast.IfStmt); ok && ifs.Init == ast.Stmt(as) {
@@ -504,7 +564,7 @@ func (c *Ctx) checkErrVar(info *types.Info, fd *ast.FuncDecl, parents map[ast.No
 						return
 					}
 				}
-				report(OK, call, callee, "error examined after the enclosing block")
+				carried("error examined after the enclosing block")
 				return
 			}
 		}
@@ -526,12 +586,12 @@ func (c *Ctx) checkErrVar(info *types.Info, fd *ast.FuncDecl, parents map[ast.No
 			// mentioned earlier in the body (top-of-loop test)
 			for _, st := range fs.Body.List {
 				if st.End() <= as.Pos() && mentions(info, st, eobj) {
-					report(OK, call, callee, "error examined at the top of the next loop iteration")
+					carried("error examined at the top of the next loop iteration")
 					return
 				}
 			}
 			if mentions(info, fs.Cond, eobj) {
-				report(OK, call, callee, "error examined by the loop condition")
+				carried("error examined by the loop condition")
 				return
 			}
 		}
